@@ -9,5 +9,5 @@ for n in $names; do
   out=$(tools/seeded.sh $n $id --workers ${SEEDED_WORKERS:-6} ${SEEDED_ARGS:-} 2>&1)
   res=$(echo "$out" | grep "^SEEDED" | tail -1)
   viol=$(echo "$out" | grep "^violation:" | head -1 | cut -c1-160)
-  echo "$(date +%H:%M) $res :: $viol" | tee -a build/lead/seeded_results.txt
+  echo "$(date +%H:%M) $res :: $viol${SEEDED_ARGS:+ [args: $SEEDED_ARGS]}" | tee -a build/lead/seeded_results.txt
 done
